@@ -16,9 +16,9 @@ def clean():
 def suite():
     rc, out = sh("cargo nextest run --workspace --no-fail-fast --tool-config-file pb:/w/lib/nextest.toml --profile pb --test-threads 8 --offline 2>&1")
     passed = set(); failed = set()
-    for m in re.finditer(r"^\s*(PASS|FAIL)\s+\[[^\]]*\]\s+(?:\(\S+\)\s+)?(\S+)\s+(\S+)", out, re.M):
+    for m in re.finditer(r"^\s*(PASS|FAIL|LEAK)\s+\[[^\]]*\]\s+(?:\(\s*\d+/\d+\)\s+)?(\S+)\s+(\S+)", out, re.M):
         name = f"{m.group(2)}::{m.group(3)}"
-        (passed if m.group(1) == "PASS" else failed).add(name)
+        (passed if m.group(1) in ("PASS", "LEAK") else failed).add(name)
     missing = sorted(b for b in BASE if b not in passed)
     # port race of the persistence tests: retry the json one alone
     if missing == ["worterbuch::persistence_json::grave_goods_and_last_will_are_presisted_with_json_storage_and_applied_after_crash"]:
